@@ -363,7 +363,7 @@ def _decrypt_hmac(key: bytes, data: bytes, digest: str) -> bytes:
         decrypted = decrypted[: -decrypted[-1]]
 
     # We don't do any secret crypto so we don't care about the warning in the docs about timing attacks
-    if hmac.digest(key, decrypted, digest) != mac:
+    if hmac.digest(key, decrypted, digest)[:digest_size] != mac:
         raise ValueError("Invalid HMAC, wrong key?")
 
     return decrypted
